@@ -242,12 +242,28 @@ func (c *Ctx) sessionRules(full bool) (leaveSync bool) {
 	}
 	// ---- stop: leave is the first effect inside the Once body; key passed is the connection's key
 	stopFn := c.P.Method("service", "connection", "stop")
-	if stopFn == nil || len(stopFn.AnonFuncs) != 1 {
-		R.Fatal("anchor connection.stop with one closure (sync.Once body) not found")
+	// the teardown body: the function stop hands to sync.Once.Do (a literal, a method value, a plain function)
+	var onceBody *ssa.Function
+	if stopFn != nil {
+		for _, b := range stopFn.Blocks {
+			for _, ins := range b.Instrs {
+				if call, ok := ins.(*ssa.Call); ok {
+					if sc := call.Call.StaticCallee(); sc != nil && sc.String() == "(*sync.Once).Do" && len(call.Call.Args) == 2 {
+						onceBody = funcOfValue(call.Call.Args[1])
+					}
+				}
+			}
+		}
+		if onceBody == nil && len(stopFn.AnonFuncs) == 1 {
+			onceBody = stopFn.AnonFuncs[0]
+		}
+	}
+	if stopFn == nil || onceBody == nil {
+		R.Fatal("anchor connection.stop with a teardown body (the function run through sync.Once) not found")
 		return leaveSync
 	}
 	{
-		body := stopFn.AnonFuncs[0]
+		body := onceBody
 		isLeave := func(i ssa.Instruction) bool {
 			call, ok := i.(*ssa.Call)
 			if !ok || call.Call.IsInvoke() {
